@@ -256,8 +256,14 @@ fn tls_behave() -> Box<dyn FnMut(usize, &Cb) -> Behavior> {
     }
     p.push(WOp::Finish);
     let prog = Arc::new(p);
+    let c1 = Arc::new(vec![col("c", msql_srv::ColumnType::MYSQL_TYPE_BLOB, msql_srv::ColumnFlags::empty())]);
     Box::new(move |i, cb| match cb {
         Cb::Query(t) if t.starts_with("big") => Behavior::Prog(prog.clone()),
+        // "cell=<n>": one row with one cell of n bytes
+        Cb::Query(t) if t.starts_with("cell=") => {
+            let n: usize = t[5..].parse().unwrap_or(0);
+            Behavior::Prog(Arc::new(vec![WOp::Start(c1.clone()), WOp::WriteRow(vec![Val::Bytes((0..n).map(|k| (k % 253) as u8).collect())]), WOp::Finish]))
+        }
         other => std(i, other),
     })
 }
@@ -277,7 +283,11 @@ fn script_with(hs_seq: u8) -> (Vec<u8>, Conv, Vec<u8>) {
     if POST_TLS_WITHOUT_SSL_BIT.with(|w| w.get()) {
         caps &= !CAP_SSL;
     }
-    let hs = frame(hs_seq, &handshake41(caps, 1 << 24, 0x21, b"tls-user", &[0])).0;
+    let hs = if INNER_320.with(|w| w.get()) {
+        frame(hs_seq, &handshake320((CAP_LONG_PASSWORD | CAP_SSL) as u16, 0xff_ffff, b"tls-user", b"pw\0")).0
+    } else {
+        frame(hs_seq, &handshake41(caps, 1 << 24, 0x21, b"tls-user", &[0])).0
+    };
     let mut big = b"big ".to_vec();
     big.extend((0..20_000).map(|i| b'a' + (i % 26) as u8));
     let mut cmds = vec![q(b"SELECT 1"), ClientCmd::new(with_byte(COM_STMT_PREPARE, b"id=1 p=0")), ClientCmd::new(cmd_execute(1, 0, 1, &[])), q(&big), ping(), quit()];
@@ -758,6 +768,8 @@ thread_local! {
     static HELLO_VERSION: std::cell::Cell<Option<[u8; 2]>> = std::cell::Cell::new(None);
     /// the handshake response sent inside TLS does not repeat the CLIENT_SSL bit
     static POST_TLS_WITHOUT_SSL_BIT: std::cell::Cell<bool> = std::cell::Cell::new(false);
+    /// the handshake response sent inside TLS uses the pre-4.1 (3.20) layout
+    static INNER_320: std::cell::Cell<bool> = std::cell::Cell::new(false);
     /// commands to send inside TLS instead of the fixed script (TlsWalks)
     static SCRIPT_CMDS: RefCell<Option<Vec<ClientCmd>>> = RefCell::new(None);
 }
@@ -897,7 +909,7 @@ impl Family for TlsWriteFaults {
 struct ClientQuirks;
 impl ClientQuirks {
     fn case(idx: u64) -> (usize, usize) {
-        let d = digits(idx, &[5, 7]);
+        let d = digits(idx, &[6, 7]);
         (d[0] as usize, d[1] as usize)
     }
 }
@@ -906,7 +918,7 @@ impl Family for ClientQuirks {
         "tls-client-quirks".into()
     }
     fn len(&self) -> u64 {
-        35
+        42
     }
     fn run(&self, idx: u64, st: &mut Stats) -> Result<(), Violation> {
         let (quirk, sched) = Self::case(idx);
@@ -926,14 +938,17 @@ impl Family for ClientQuirks {
             1 => "ClientHello record version 0x0302",
             2 => "ClientHello record version 0x0303",
             3 => "ClientHello record version 0x0300",
-            _ => "handshake response inside TLS without the CLIENT_SSL bit",
+            4 => "handshake response inside TLS without the CLIENT_SSL bit",
+            _ => "handshake response inside TLS in the pre-4.1 layout",
         };
-        HELLO_VERSION.with(|w| w.set([Some([3, 1]), Some([3, 2]), Some([3, 3]), Some([3, 0]), None][quirk]));
+        HELLO_VERSION.with(|w| w.set([Some([3, 1]), Some([3, 2]), Some([3, 3]), Some([3, 0]), None, None][quirk]));
         POST_TLS_WITHOUT_SSL_BIT.with(|w| w.set(quirk == 4));
+        INNER_320.with(|w| w.set(quirk == 5));
         let o = run_tls(Some(pki().server_plain.clone()), false, cuts.clone(), uniform);
         let r = judge(&o, false, &format!("{}, cuts {:?}, reads of at most {}", what, cuts, if uniform == usize::MAX { 0 } else { uniform }), st);
         HELLO_VERSION.with(|w| w.set(None));
         POST_TLS_WITHOUT_SSL_BIT.with(|w| w.set(false));
+        INNER_320.with(|w| w.set(false));
         st.transitions += o.st.reads as u64;
         r
     }
@@ -1010,6 +1025,63 @@ impl Family for TlsWalks {
     }
 }
 
+/// replies of every size in windows around 16 KiB, 32 KiB and 64 KiB (TLS record and buffer sizes)
+/// inside a TLS session: one row with one cell of n bytes, then a PING
+struct TlsReplySizes {
+    sizes: Vec<usize>,
+}
+impl TlsReplySizes {
+    fn new(quick: bool) -> Self {
+        let mut sizes = Vec::new();
+        for c in if quick { vec![16_384usize, 32_768] } else { vec![4_096usize, 8_192, 16_384, 32_768, 49_152, 65_536, 131_072] } {
+            sizes.extend(c - 220..=c + 60);
+        }
+        TlsReplySizes { sizes }
+    }
+}
+impl Family for TlsReplySizes {
+    fn name(&self) -> String {
+        "reply-sizes-inside-tls".into()
+    }
+    fn len(&self) -> u64 {
+        self.sizes.len() as u64
+    }
+    fn run(&self, idx: u64, st: &mut Stats) -> Result<(), Violation> {
+        let n = self.sizes[idx as usize];
+        st.nontrivial += 1;
+        st.bump("tls_reply_sizes");
+        SCRIPT_CMDS.with(|c| *c.borrow_mut() = Some(vec![q(format!("cell={}", n).as_bytes()), ping()]));
+        let o = run_tls_full(Some(pki().server_plain.clone()), false, vec![], usize::MAX, 0, false, None, 2);
+        let (_, conv, last_seq) = script_with(2);
+        SCRIPT_CMDS.with(|c| *c.borrow_mut() = None);
+        let what = format!("a reply with one cell of {} bytes inside TLS", n);
+        if let ConnResult::Panic(l, m) = &o.res {
+            return Err(Violation::new(panic_key(l, m), format!("{}: run_on panicked at {}: {}", what, l, m)));
+        }
+        if o.st.hang {
+            return Err(Violation::new("hang", format!("{}: the server waited for bytes although the client had sent everything", what)));
+        }
+        if let Some(e) = &o.st.tls_error {
+            return Err(Violation::new("tls-error", format!("{}: {}", what, e)));
+        }
+        let g = o.st.greeting_len.unwrap_or(0);
+        only_tls_records(&o.st.from_server[g..]).map_err(|e| Violation::new("plaintext-after-switch", format!("{}: {}", what, e)))?;
+        if !o.res.is_ok() {
+            return Err(Violation::new("result-not-ok", format!("{}: run_on returned {}", what, o.res.short())));
+        }
+        let mut all = o.st.from_server[..g].to_vec();
+        all.extend_from_slice(&o.st.decrypted);
+        let d = decode_all(&all, &conv, &last_seq, 2, false).map_err(|e| Violation::new("decrypted-replies", format!("{}: {}", what, e)))?;
+        match &d.replies[0][..] {
+            [Unit::ResultSet { rows, end: Ok(_), .. }] if rows.len() == 1 && matches!(&rows[0][0], Cell::Text(t) if t.len() == n) => Ok(()),
+            other => Err(Violation::new("decrypted-rows-differ", format!("{}: the reply arrives as {} unit(s)", what, other.len()))),
+        }
+    }
+    fn describe(&self, idx: u64) -> J {
+        json!({"cell_bytes": self.sizes[idx as usize]})
+    }
+}
+
 pub fn build(quick: bool) -> Check {
     let mut families: Vec<Box<dyn Family>> = Vec::new();
     for cc in [false, true] {
@@ -1035,12 +1107,13 @@ pub fn build(quick: bool) -> Check {
         families.push(Box::new(Tls12Splits { positions: split_positions(&stream, quick), client_cert: cc }));
     }
     families.push(Box::new(NoConfig { base: baseline(false) }));
+    families.push(Box::new(TlsReplySizes::new(quick)));
     families.push(Box::new(TlsWalks { depth: 3 }));
     families.push(Box::new(TlsWalks { depth: if quick { 4 } else { 5 } }));
     Check {
         id: "C18",
         level: "model_checking",
-        rule: "a live rustls client inside the transport: SSLRequest (plaintext) immediately followed by the ClientHello, then, once the server's flight arrived, Finished (+ client certificate) coalesced with the encrypted HandshakeResponse41 and six pipelined commands, among them a 20000-byte query (several inbound TLS records) answered by a resultset with a 40000-byte cell and 250 rows (115 KB: several outbound records, more than rustls buffers unsent). Schedules: every single cut position of the whole client->server stream (quick: every position of the first 1600 bytes and within 6 bytes of each TLS record header, every 13th elsewhere), every pair of cut positions within SSLRequest+ClientHello (thorough: every pair within the first 1100 bytes), uniform read sizes 1..64; with and without a client certificate; the single cuts again with a TLS 1.2 client; ClientHello sizes (padded with ALPN names) swept across 3.6-4.2 KB, 7.8-8.3 KB, 15.9-16.5 KB and up to 60 KB, coalesced with the SSL request or not; SSL requests in the pre-4.1 layout (naming another user in the clear) and connection-phase sequence ids other than 1, 2; ClientHello records with legacy versions 0x0300..0x0303 and a handshake response inside TLS that does not repeat CLIENT_SSL; the client's stream ending (without close_notify) at every such position of a TLS 1.3 and a TLS 1.2 session - with all messages in one burst of records and with one record per message; Ok is only acceptable exactly between two TLS records; each transport write of a TLS session failing once with Interrupted / WouldBlock, with an accepting and a rejecting shim; plus a TLS-requesting client against a shim without TLS configuration under every cut of its first flight. Plus every history of 3-4 (thorough: 5) commands of every kind (PREPARE, long data, EXECUTE, CLOSE, queries, PING) inside a TLS session under whole, 7- and 61-byte reads. Oracle: user name and certificate chain at after_authentication, callback log = script, every server byte after the greeting lies in a well-formed TLS record the client accepts, decrypted replies decode strictly with the right sequence ids, run_on returns Ok; no-config case: Err and no callback.".into(),
+        rule: "a live rustls client inside the transport: SSLRequest (plaintext) immediately followed by the ClientHello, then, once the server's flight arrived, Finished (+ client certificate) coalesced with the encrypted HandshakeResponse41 and six pipelined commands, among them a 20000-byte query (several inbound TLS records) answered by a resultset with a 40000-byte cell and 250 rows (115 KB: several outbound records, more than rustls buffers unsent). Schedules: every single cut position of the whole client->server stream (quick: every position of the first 1600 bytes and within 6 bytes of each TLS record header, every 13th elsewhere), every pair of cut positions within SSLRequest+ClientHello (thorough: every pair within the first 1100 bytes), uniform read sizes 1..64; with and without a client certificate; the single cuts again with a TLS 1.2 client; ClientHello sizes (padded with ALPN names) swept across 3.6-4.2 KB, 7.8-8.3 KB, 15.9-16.5 KB and up to 60 KB, coalesced with the SSL request or not; SSL requests in the pre-4.1 layout (naming another user in the clear) and connection-phase sequence ids other than 1, 2; ClientHello records with legacy versions 0x0300..0x0303 and a handshake response inside TLS that does not repeat CLIENT_SSL; the client's stream ending (without close_notify) at every such position of a TLS 1.3 and a TLS 1.2 session - with all messages in one burst of records and with one record per message; Ok is only acceptable exactly between two TLS records; each transport write of a TLS session failing once with Interrupted / WouldBlock, with an accepting and a rejecting shim; plus a TLS-requesting client against a shim without TLS configuration under every cut of its first flight. Plus every history of 3-4 (thorough: 5) commands of every kind (PREPARE, long data, EXECUTE, CLOSE, queries, PING) inside a TLS session under whole, 7- and 61-byte reads; replies of every size within -220..+60 bytes of 16 KiB and 32 KiB (thorough: 4..128 KiB) inside TLS; a handshake response inside TLS in the pre-4.1 layout. Oracle: user name and certificate chain at after_authentication, callback log = script, every server byte after the greeting lies in a well-formed TLS record the client accepts, decrypted replies decode strictly with the right sequence ids, run_on returns Ok; no-config case: Err and no callback.".into(),
         assumptions: vec![
             "ring's randomness is not owned: handshake bytes differ between runs and with a client certificate the stream length varies by a byte or two; cut positions are taken from the stream actually produced, the verdict does not depend on the random values".into(),
             "flush behaviour is C12's subject; here written bytes are visible to the client at once".into(),
@@ -1049,6 +1122,6 @@ pub fn build(quick: bool) -> Check {
         exhaustive: true,
         caps_hit: vec![],
         families,
-        required: vec!["tls_walks", "tls_client_quirks", "tls_eof_inside_a_record", "tls_write_faults", "ssl_request_variants", "client_hello_beyond_4096_bytes", "client_hello_in_two_records", "tls12_handshakes", "splits_inside_client_hello", "splits_inside_ssl_request", "ssl_request_coalesced_with_client_hello", "client_chains_delivered", "refusals", "tls_records_from_server"],
+        required: vec!["tls_walks", "tls_reply_sizes", "tls_client_quirks", "tls_eof_inside_a_record", "tls_write_faults", "ssl_request_variants", "client_hello_beyond_4096_bytes", "client_hello_in_two_records", "tls12_handshakes", "splits_inside_client_hello", "splits_inside_ssl_request", "ssl_request_coalesced_with_client_hello", "client_chains_delivered", "refusals", "tls_records_from_server"],
     }
 }
